@@ -8,7 +8,7 @@ for d in sorted(glob.glob('/verif/seeded/*/')):
     meta=json.load(open(m))
     notes=meta.get('notes','')
     # first paragraph describing this change
-    x=meta['id'].split('-')[1]
+    x=meta.get('source_letter') or meta['id'].split('-')[1]
     sec=re.split(r'\n#+ ', notes)
     desc=''
     for s in sec:
